@@ -135,6 +135,18 @@ impl VacancyTracker {
     }
 }
 
+#[cfg(folo_verif)]
+impl VacancyTracker {
+    /// Verification hook: (valid bit count, raw blocks, cached next vacancy).
+    pub(crate) fn verif_probe(&self) -> (usize, Vec<u64>, Option<usize>) {
+        (
+            self.has_vacancy.len(),
+            self.has_vacancy.verif_blocks(),
+            self.next_vacancy,
+        )
+    }
+}
+
 #[cfg(test)]
 #[allow(
     clippy::multiple_unsafe_ops_per_block,
